@@ -1011,6 +1011,7 @@ type edgeWit struct {
 
 func main() {
 	out := flag.String("out", "", "output directory (lean/Spine/Generated)")
+	instrDir := flag.String("instr", "", "also write an instrumented copy of the tree under test to this directory (dynamic cross-check of the analyser)")
 	flag.Parse()
 	if *out == "" {
 		fmt.Fprintln(os.Stderr, "usage: lockgraph -out <dir>")
@@ -1032,6 +1033,19 @@ func main() {
 	}
 	prog, spkgs := ssautil.AllPackages(pkgs, ssa.BuilderMode(0))
 	prog.Build()
+	instrSummary := ""
+	if *instrDir != "" {
+		// after the SSA build (which only reads the syntax trees); the instrumenter rewrites them
+		defer func() {
+			s, err := instrument(pkgs, repo, *instrDir)
+			if err != nil {
+				fmt.Fprintln(os.Stderr, "instrument:", err)
+				os.Exit(1)
+			}
+			fmt.Println(s)
+		}()
+	}
+	_ = instrSummary
 	a := &analysis{prog: prog, fset: prog.Fset, cg: cha.CallGraph(prog), repo: repo, spawned: map[*ssa.Function]bool{}}
 	a.buildSiteIndex()
 	a.collect(spkgs)
@@ -1254,9 +1268,11 @@ func main() {
 		How   string
 	}
 	perField := map[string][]row{}
-	sites := map[string]set{}      // "spine/file.go:line" -> fields accessed there after construction
-	funcFields := map[string]set{} // normalised function name -> fields accessed in it after construction
+	sites := map[string]set{}                  // "spine/file.go:line" -> fields accessed there after construction
+	allSites := map[string]map[string]string{} // "spine/file.go:line" -> field -> "post" | "ctor" | "both"
+	funcFields := map[string]set{}             // normalised function name -> fields accessed in it after construction
 	postWrite := map[string]bool{}
+	postAccessed := set{} // fields with a plain (non-atomic) access after construction
 	allFields := set{}
 	rowIdx := map[string]int{}
 	for _, f := range a.order {
@@ -1278,6 +1294,25 @@ func main() {
 			post := !ac.ctor
 			if post && ac.write {
 				postWrite[ac.field] = true
+			}
+			if post {
+				postAccessed[ac.field] = struct{}{}
+			}
+			{
+				// every access the analyser saw, by site and phase (the dynamic cross-check of the
+				// analyser compares the accesses observed in instrumented runs with this table)
+				p := a.pos(ac.pos)
+				if allSites[p] == nil {
+					allSites[p] = map[string]string{}
+				}
+				ph := "ctor"
+				if post {
+					ph = "post"
+				}
+				if old, ok := allSites[p][ac.field]; ok && old != ph {
+					ph = "both"
+				}
+				allSites[p][ac.field] = ph
 			}
 			if post {
 				p := a.pos(ac.pos)
@@ -1436,6 +1471,38 @@ func main() {
 	}
 	w("/-- the shared \"fields\" that are package-level variables of the module written after package initialisation\n    (process-wide state: shared by all devices, features and connections) -/\ndef packageVars : List Nat := [%s]\n", strings.Join(pvars, ", "))
 	w("-- package-level variables only read after initialisation: %s\n\n", strings.Join(roVars, ", "))
+	// address escapes (escapes.go)
+	ef := a.addressEscapes()
+	var escShared, escOther, mixed []string
+	{
+		isShared := map[string]bool{}
+		for _, f := range shared {
+			isShared[f] = true
+		}
+		var fs []string
+		for f := range ef.escapes {
+			fs = append(fs, f)
+		}
+		sort.Strings(fs)
+		for _, f := range fs {
+			for _, s := range ef.escapes[f] {
+				if isShared[f] {
+					escShared = append(escShared, f+": "+s)
+				} else {
+					escOther = append(escOther, f+": "+s)
+				}
+			}
+		}
+		for _, f := range ef.atomic.sorted() {
+			if postAccessed.has(f) {
+				mixed = append(mixed, f)
+			}
+		}
+	}
+	w("/-- uses of the ADDRESS of a field that is written after construction other than loading / storing through it\n    in the same function, atomically, or as receiver of a method of the module: accesses made through such a pointer\n    elsewhere would not appear in the rows above -/\ndef addressEscapes : List String := [%s]\n\n", quoteList(escShared))
+	w("/-- fields used through sync/atomic (or as receiver of a sync type) that ALSO have a plain access after construction -/\ndef mixedAtomic : List String := [%s]\n", quoteList(mixed))
+	w("-- fields only ever used atomically / through package sync: %s\n", strings.Join(ef.atomic.sorted(), ", "))
+	w("-- address taken of fields never written after construction (pointer handed out; harmless while nobody writes): %s\n\n", strings.Join(escOther, "; "))
 	w("/-- a mutex held (in any mode) at every post-construction access of the field and exclusively at every write (the smallest such id) -/\ndef commonLock : Nat → Option Nat\n")
 	for i, f := range shared {
 		if c := common[f]; len(c) > 0 {
@@ -1500,6 +1567,10 @@ func main() {
 	js["unbalanced_unlocks"] = unbalanced
 	js["shared_fields"] = shared
 	js["package_vars_read_only"] = roVars
+	js["address_escapes_shared"] = escShared
+	js["address_escapes_immutable"] = escOther
+	js["atomic_fields"] = ef.atomic.sorted()
+	js["mixed_atomic"] = mixed
 	js["undisciplined"] = undisciplined
 	js["common_lock"] = common
 	js["immutable_after_construction"] = immutable
@@ -1532,6 +1603,7 @@ func main() {
 		}
 	}
 	js["sites"] = jsites
+	js["all_sites"] = allSites
 	jff := map[string][]string{}
 	for fn, fs := range funcFields {
 		for _, f := range fs.sorted() {
